@@ -7,4 +7,5 @@ Extraction "model.ml"
   eligible sel_k max_standard_tx_size
   min_relay max_amount estimate_signed_size required_fee is_dust maybe_subtract_fee
   auto_create auto_select create_raw create_raw_sel outer_fuel
-  auto_tx_check manual_tx_check fee_cap find_utxo.
+  create_raw_sel_unfixed auto_tx_check manual_tx_check fee_cap find_utxo
+  auto_slack_class manual_slack_class cap_funds.
